@@ -363,7 +363,7 @@ LEVELS = {
 EXPLANATIONS = {
     "C03": "Lean: small-step model tied to the code by event-log replay; proved: Search never writes, lock bookkeeping (C09/C10), sequential refinement (C01); the linearizability statement is a def, not proved. Decided by the linearizability checker on the implementation under ALL schedules of a catalogue of small configurations and thousands of random schedules.",
     "C04": "Lean: proved: Pair returns an entry of the held leaf, cursor operations never write, the hop is lock-next-then-unlock-current; the successor-query statement is a def. Decided by the linearizability checker (Scan as successor query) under all schedules of the writer-next-to-cursor catalogue and random schedules.",
-    "C06": "Lean: proved: only Lock() on a held mutex blocks, every step terminates, Delete's left->child->right lock order; deadlock freedom is a def, not proved. Decided (not timed out) by the cooperative scheduler's wait-for graph under all schedules of the cursor-next-to-Delete catalogue and random schedules.",
+    "C06": "Lean: proved: (reduction) every reachable configuration that is ranked — each waiting thread waits for a mutex after all it holds in the level order of the tree — and in which no thread ended with an open cursor has an enabled thread (uses mutual exclusion, proved); only Lock() on a held mutex blocks; every step terminates; Delete's left->child->right lock order. That every reachable configuration is ranked is NOT proved: it is evaluated by the model driver in every replayed configuration and by the lockorder oracle in every scheduler state of the implementation; deadlock itself is decided (not timed out) by the wait-for graph under all schedules of the catalogues and random schedules.",
     "C07": "PARTIAL by nature: no Lean model exhibits hardware/compiler behaviour; proved: MUTUAL EXCLUSION of every mutex in every reachable configuration (C07_mutual_exclusion: owner table = union of held lists, no mutex owned twice), read-only operations write nothing, root replaced only under rootMutex; the write-frame half of the discipline statement is a def. Decided for the observed executions by the Go race detector (real goroutines, real sync.Mutex, six types, orders 4 and 64).",
 }
 
